@@ -727,6 +727,7 @@ func (b *built) cleanup() {
 type runOut struct {
 	res      *TraceResult
 	big      *bigOut // untraced big-member run (bigzip.go)
+	two      *twoOut // untraced two-writers run (twowriters.go)
 	destLine string
 	dlLine   string
 	upLine   string
@@ -740,6 +741,9 @@ type runOut struct {
 func execute(s scn, base string) *runOut {
 	if s.Writer == "unpack-zip-big" {
 		return executeBig(s)
+	}
+	if isTwo(s.Writer) {
+		return executeTwo(s)
 	}
 	b, err := build(s, base)
 	if b != nil {
